@@ -32,7 +32,7 @@ def msgs_for(info, msgs=None):
 
 
 def run_instance(rep, name, pset, *, actions, depth, ct_slots=("c1", "c2"), pt_slots=("p1",), max_size=5, scales=(30,),
-                 extra_sample=2000, keysets=("default",), msgs=None, per_class=1, steps=None, elts=None, workers=8, tag_msgs=False,
+                 extra_sample=2000, keysets=("default",), msgs=None, per_class=1, steps=None, elts=None, workers=8, tag_msgs=False, tag_alias=False,
                  deadline=20.0, rng=None, timeout=1500):
     """One TLC run of an HE.tla instance + replay of its behaviours. Accumulates into the Report."""
     rng = rng or random.Random(rep.seed)
@@ -42,7 +42,7 @@ def run_instance(rep, name, pset, *, actions, depth, ct_slots=("c1", "c2"), pt_s
     for ks in keysets:
         wd = workdir("%s_%s_%s" % (rep.prop, name, ks))
         cfg = write_instance(wd, "MC_" + name, info, actions=actions, ct_slots=list(ct_slots), pt_slots=list(pt_slots),
-                             max_steps=depth, max_size=max_size, msgs=ms, scales=scales, keyset=ks, steps=steps, elts=elts, tag_msgs=tag_msgs)
+                             max_steps=depth, max_size=max_size, msgs=ms, scales=scales, keyset=ks, steps=steps, elts=elts, tag_msgs=tag_msgs, tag_alias=tag_alias)
         g = Graph()
         r = run_tlc("MC_" + name, cfg, wd, workers=workers, on_line=g.on_line, timeout=timeout)
         if r["violated"]:
@@ -84,6 +84,8 @@ def run_instance(rep, name, pset, *, actions, depth, ct_slots=("c1", "c2"), pt_s
             (rep.prop, name, ks, r["distinct"], len(g.trans), nclasses, len(behs), nviol, r["wall_s"]))
 
 
+TRACE_ASSUME = ["recorded programs: the driver chooses calls from the state of the real objects (seeded); after a call the specification does not constrain, "
+                "the destination is untracked until it is overwritten; the BGV correction factor is adopted from the record where only the balancing post-condition is specified"]
 COMMON_ASSUME = [
     "TLC explores the instance exhaustively up to the stated depth; values are tracked for one representative per typestate class (VIEW hides values and history)",
     "a panic of the library is observed as refusal; any panic counts",
@@ -144,6 +146,11 @@ def check_c02(rep):
     if not quick:
         run_instance(rep, "arith_bfv16", "bfv_16_97_50,50,50,50", actions=ARITH, depth=7, extra_sample=20000)
         run_instance(rep, "arith_bgv4", "bgv_4_17_40,40,40,40", actions=ARITH, depth=7, extra_sample=20000)
+    # impl -> spec: recorded seeded-random programs validated against Trace_HE.tla (DESIGN.md 4.5)
+    import he_trace
+    for nm, ps in (("bfv", BFV), ("bgv", BGV), ("bfv_bigt", "bfv_8_12289_10,50,50,50"), ("bgv_mixed", "bgv_8_17_36,50,45,50")):
+        he_trace.run_trace(rep, nm, ps, nprogs=25 if quick else 400, length=80 if quick else 150)
+    rep.assumptions += TRACE_ASSUME
     rep.assumptions += COMMON_ASSUME
 
 
@@ -159,19 +166,56 @@ def check_c03(rep):
     if not quick:
         run_instance(rep, "ckks5", "ckks_8_0_40,40,40,40,40,40", actions=acts, depth=7, scales=(30, 38), extra_sample=30000)
         run_instance(rep, "ckks16", "ckks_16_0_45,35,45,45", actions=acts, depth=6, scales=(20, 33), extra_sample=30000)
+    import he_trace
+    for nm, ps, sc in (("ckks", CKKS, (30, 20)), ("ckks_mixed", "ckks_8_0_30,50,40,45,50", (25,))):
+        he_trace.run_trace(rep, nm, ps, nprogs=25 if quick else 400, length=80 if quick else 150, scales=sc)
+    rep.assumptions += TRACE_ASSUME
     rep.assumptions += COMMON_ASSUME + ["the error bound 2^nb is the deliberately loose closed form of HE.tla (Appendix B of DESIGN.md)"]
 
 
 def check_c04(rep):
     quick = rep.tier == "quick"
-    rep.cov["rule"] = ("behaviours = paths over encrypt / apply_galois (every odd element) / rotate (every step) / conjugate-or-column-swap / mod switch, "
+    rep.cov["rule"] = ("behaviours = paths over encrypt / apply_galois (every odd element) / rotate (every step) / conjugate-or-column-swap / mod switch, and over encryption under a second secret key / key switching to the context's key, "
                        "with the default power-of-two key set (NAF-composed rotations) and with a key for every element; class = distinct (action, element or step, operand typestate)")
     for sch, ps in (("bfv", BFV), ("bgv", BGV), ("ckks", CKKS)):
         run_instance(rep, "gal_" + sch, ps, actions=GALOIS, depth=5 if quick else 6, keysets=("default", "all"), extra_sample=3000 if quick else 30000)
     for sch, ps in (("bfv", "bfv_16_97_45,45,45"), ("ckks", "ckks_16_0_40,40,40")) if quick else (("bfv", "bfv_16_97_45,45,45"), ("bgv", "bgv_16_97_45,45,45"), ("ckks", "ckks_16_0_40,40,40"), ("bfv", "bfv_32_193_45,45,45")):
         run_instance(rep, "gal16_" + sch + ps.split("_")[1], ps, actions=["Encode", "Encrypt", "Galois", "Rotate", "Conj"], depth=4 if quick else 5, ct_slots=("c1",),
                      keysets=("default", "all"), extra_sample=2000 if quick else 20000)
+    # switching to another secret key: ciphertexts encrypted under a second key of the context (all four modes), moved along the
+    # chain / added / multiplied by a plaintext under that key, then switched with the key-switching key and used under the context's key
+    ksw = ["Encode", "Encrypt", "EncryptOther", "KeySwitch", "Expand", "Decrypt", "ModSwitchNext", "Add", "MulPlain", "Multiply", "Rotate"]
+    for sch, ps in (("bfv", BFV), ("bgv", BGV), ("ckks", CKKS), ("bfv", "bfv_8_17_30,30,50,40"), ("bgv", "bgv_8_17_36,50,45")):
+        run_instance(rep, "ksw_" + sch + "_" + ps.split("_")[3].replace(",", ""), ps, actions=ksw, depth=5 if quick else 6, ct_slots=("c1", "c2"), pt_slots=("p1",),
+                     steps=[1], scales=(30,), extra_sample=2000 if quick else 20000)
+    import he_trace
+    for nm, ps, sc in (("bfv_allkeys", BFV, (30,)), ("bgv_allkeys", BGV, (30,)), ("ckks_allkeys", CKKS, (30,))):
+        he_trace.run_trace(rep, nm, ps, nprogs=15 if quick else 200, length=80 if quick else 150, scales=sc, glk="all")
+    rep.assumptions += TRACE_ASSUME
     rep.assumptions += COMMON_ASSUME
+
+
+def chain_loop_model(rep, nl):
+    """spec/Chain.tla: the to-target loop terminates, ends on the target and refuses upward targets (design);
+    the loop of the pinned commit (condition on the immutable source) is refuted by TLC on both counts."""
+    wd = workdir("C05_chainloop")
+    def run(name, variant, n, invs, props):
+        cfg = os.path.join(wd, name + ".cfg")
+        open(cfg, "w").write("SPECIFICATION Spec\nCONSTANTS\n  NL = %d\n  CondReads = \"%s\"\n%s%sCHECK_DEADLOCK FALSE\n" %
+                             (n, variant, ("INVARIANTS " + " ".join(invs) + "\n") if invs else "", ("PROPERTIES " + " ".join(props) + "\n") if props else ""))
+        return run_tlc("Chain", cfg, wd, workers=2, timeout=300)
+    r = run("design", "destination", nl, ["TypeOk", "EndsOnTarget", "RefusesUpward", "OnlyDownward", "NoSpuriousRefusal", "StepCount"], ["Terminates"])
+    tlc_must_pass(r, "Chain.tla (design)")
+    rep.cov["states"] = rep.cov.get("states", 0) + r["distinct"]
+    rep.cov["transitions"] = rep.cov.get("transitions", 0) + r["generated"]
+    r1 = run("pinned_live", "source", 3, [], ["Terminates"])
+    r2 = run("pinned_safe", "source", 3, ["EndsOnTarget"], [])
+    live_refuted = any("Temporal property Terminates was violated" in l or "Temporal properties were violated" in l for l in r1["out"])
+    safe_refuted = r2["violated"] == "EndsOnTarget"
+    rep.cov["chain_loop"] = {"levels": nl, "design_states": r["distinct"], "design_holds": True,
+                             "pinned_loop_termination_refuted_by_tlc": live_refuted, "pinned_loop_ends_on_target_refuted_by_tlc": safe_refuted}
+    if not (live_refuted and safe_refuted):
+        raise ToolError("sanity: the source-reading loop of Chain.tla should violate Terminates and EndsOnTarget")
 
 
 def check_c05(rep):
@@ -179,6 +223,7 @@ def check_c05(rep):
     rep.cov["rule"] = ("behaviours = paths over encrypt / multiply / mod_switch_to_next / mod_switch_to(every level) / rescale_to_next / rescale_to(every level) / "
                        "plaintext switching, on chains of 1..4 (quick) or 1..6 (thorough) levels; every step is executed in the in-place, destination and "
                        "value-returning form under a per-call deadline (non-termination is an observable outcome)")
+    chain_loop_model(rep, 6 if quick else 10)
     chains = [2, 3, 4, 5] if quick else [2, 3, 4, 5, 6, 7]
     for k in chains:
         bits = ",".join(["40"] * k)
@@ -204,6 +249,10 @@ def check_c06(rep):
     plainops = ["Encode", "Encrypt", "EncryptZero", "Sub", "Add", "Negate", "MulPlain", "AddPlain", "SubPlain", "ToNtt", "FromNtt", "PlainToNtt", "Multiply", "Square"]
     for sch, ps, msgs in (("bfv", BFV, [[0, 0, 5], [0, 16], [1, 2, 3, 4, 5, 6, 7, 16], [7]]), ("bgv", BGV, [[0, 0, 5], [0, 16], [1, 2, 3, 4, 5, 6, 7, 16], [7]]),
                           ("ckks", CKKS, None)):
-        run_instance(rep, "plainops_" + sch, ps, actions=plainops, depth=(4 if sch == "ckks" else 5) if quick else (5 if sch == "ckks" else 6), msgs=msgs, tag_msgs=True,
+        run_instance(rep, "plainops_" + sch, ps, actions=plainops, depth=(4 if sch == "ckks" else 5) if quick else (5 if sch == "ckks" else 6), msgs=msgs, tag_msgs=True, tag_alias=True,
                      extra_sample=5000 if quick else 50000, scales=(30,))
+    import he_trace
+    for nm, ps, sc in (("bfv", "bfv_8_17_45,45,45,45,45", (30,)), ("bgv", "bgv_8_17_45,45,45,45,45", (30,)), ("ckks", "ckks_8_0_40,40,40,40,40", (30, 20))):
+        he_trace.run_trace(rep, nm, ps, nprogs=25 if quick else 400, length=100 if quick else 200, scales=sc)
+    rep.assumptions += TRACE_ASSUME
     rep.assumptions += COMMON_ASSUME
